@@ -6,6 +6,23 @@ import simharness as sh
 from symx import W
 
 
+IO_SLOTS = {('main', 0xD3), ('main', 0xDB)} | {('ED', op) for op in range(0x40, 0x80) if op & 7 in (0, 1)} | \
+    {('ED', op) for op in (0xA2, 0xA3, 0xAA, 0xAB, 0xB2, 0xB3, 0xBA, 0xBB)}
+
+_M = {}
+
+
+def get_machine(cls_name, mach, tracer):
+    """cached Machine (real simulator instance with symbolic state) per configuration, per worker process"""
+    key = (cls_name, mach, tracer)
+    if key not in _M:
+        import skoolkit.simulator as sm
+        import skoolkit.cmiosimulator as cm
+        cls = {'Simulator': sm.Simulator, 'CMIOSimulator': cm.CMIOSimulator}[cls_name]
+        _M[key] = sh.Machine(cls, mach, sh.Tracer() if tracer else None)
+    return _M[key]
+
+
 def model_state(m, machine):
     """concrete pre-state from a z3 model: (regs[30], {'default': d, addr: byte...}, [port inputs])"""
     regs = [m.eval(r, model_completion=True).as_long() for r in machine.regs0]
